@@ -282,8 +282,20 @@ func (bn *baseNode) setModTime(mtime time.Time, u avfs.UserReader) bool {
 	return true
 }
 
-// setOwner sets the owner of the node.
-func (bn *baseNode) setOwner(uid, gid int) {
+// setOwner sets the owner of the node if the user is allowed to :
+// the administrator always is, the owner of the node can set its group to his own group (as chown(2)).
+// Permissions are only checked if the file system has an identity manager (checkPerm).
+func (bn *baseNode) setOwner(uid, gid int, u avfs.UserReader, checkPerm bool) bool {
+	if checkPerm && !u.IsAdmin() {
+		if uid != -1 && (uid != bn.uid || bn.uid != u.Uid()) {
+			return false
+		}
+
+		if gid != -1 && (bn.uid != u.Uid() || (gid != u.Gid() && gid != bn.gid)) {
+			return false
+		}
+	}
+
 	// A uid or gid of -1 means to not change that value.
 	if uid != -1 {
 		bn.uid = uid
@@ -302,6 +314,8 @@ func (bn *baseNode) setOwner(uid, gid int) {
 			bn.mode &^= fs.ModeSetgid
 		}
 	}
+
+	return true
 }
 
 // Unlock unlocks the node.
